@@ -20,8 +20,8 @@ ID = "C16"
 LEVEL = "model_checking"
 TECHNIQUE = "explicit-state BFS over cache contents with the switch cross product chosen per transition; counters of bodies, effects, log requests and emitted records as oracle; differential value oracle against the all-switches-off twin"
 RULE = (
-    "graphs: single, chain, diamond, effects+callback, pre-set options, Map over a cached dataset, overload by "
-    "dataset, each built with memory caches and with nocache; actions = dictionary x 4 cache settings x 3 effect "
+    "graphs: single, diamond, pre-set options, Map over a cached dataset, overload by dataset, dataset with a "
+    "LogEffect, each built with memory caches and with nocache; actions = dictionary x 4 cache settings x 3 effect "
     "settings x 3 logging settings (36 switch combinations); BFS with canonical cache-state dedup to depth 3 quick / "
     "4 thorough.  Checked per transition: value = twin; cache disabled => bodies run exactly as in the memo-free twin "
     "and cache contents identical before/after; effects disabled => no effect runs, else one per body run of its "
